@@ -9,7 +9,7 @@ IgnSet(r) == IF r.noign THEN NoIgnore ELSE Ignoring({r.ign[i] : i \in 1..Len(r.i
 CheckDec(r) ==
   LET x == IF r.codec = 0 THEN HexDecode(r.text, IgnSet(r), r.cap, r.wantEnd)
                           ELSE B64Decode(r.text, IgnSet(r), r.codec, r.cap, r.wantEnd)
-  IN IF x.ok THEN r.ret = 0 /\ r.n = Len(x.bin) /\ r.bin = x.bin /\ (r.wantEnd => r.end = x.end)
+  IN r.nullsame /\ IF x.ok THEN r.ret = 0 /\ r.n = Len(x.bin) /\ r.bin = x.bin /\ (r.wantEnd => r.end = x.end)
              ELSE r.ret = -1 /\ r.n <= r.cap /\ (r.wantEnd => (r.end >= 0 /\ r.end <= Len(r.text)))
 CheckEnc(r) ==
   LET t == IF r.codec = 0 THEN Hex(r.bin) ELSE B64(r.bin, r.codec)
